@@ -74,9 +74,10 @@ type Val struct {
 	S     []byte `json:"s,omitempty"` // String / Raw
 	I     int64  `json:"i,omitempty"`
 	U     uint64 `json:"u,omitempty"`
-	F     uint64 `json:"f,omitempty"`   // float64 bits
-	T     int64  `json:"tm,omitempty"`  // unix milliseconds, UTC
-	Sub   int32  `json:"sub,omitempty"` // nanoseconds below the millisecond of the time.Time handed to the library (the wire format has milliseconds: they are cut off, not rounded)
+	F     uint64 `json:"f,omitempty"`    // float64 bits
+	T     int64  `json:"tm,omitempty"`   // unix milliseconds, UTC
+	Sub   int32  `json:"sub,omitempty"`  // nanoseconds below the millisecond of the time.Time handed to the library (the wire format has milliseconds: they are cut off, not rounded)
+	Zone  int32  `json:"zone,omitempty"` // minutes east of UTC of the location the given time.Time carries (0: UTC); the wall clock is the same
 	B     bool   `json:"b,omitempty"`
 	Decoy bool   `json:"decoy,omitempty"`
 }
@@ -112,7 +113,15 @@ func (v *Val) Float() float64  { return math.Float64frombits(v.F) }
 func (v *Val) Time() time.Time { return time.UnixMilli(v.T).UTC() }
 
 // TimeGiven is the time.Time the application hands to a constructor or setter.
-func (v *Val) TimeGiven() time.Time { return v.Time().Add(time.Duration(v.Sub)) }
+// With Zone != 0 it carries a location other than UTC (offset in minutes) and the same wall clock: the
+// library writes the wall clock of the value it is given, through the constructor and the setter alike.
+func (v *Val) TimeGiven() time.Time {
+	tm := v.Time().Add(time.Duration(v.Sub))
+	if v.Zone != 0 {
+		return time.Date(tm.Year(), tm.Month(), tm.Day(), tm.Hour(), tm.Minute(), tm.Second(), tm.Nanosecond(), time.FixedZone("zone", int(v.Zone)*60))
+	}
+	return tm
+}
 
 // Text is the canonical wire text of a value ("" for Float: use FloatTextOK).
 func Text(t VT, v *Val) string {
